@@ -1142,6 +1142,94 @@ DECODABLE_PATHS = (
 )
 
 
+def _is_pattern_search(e):
+    return (isinstance(e, ast.Call) and isinstance(e.func, ast.Attribute) and e.func.attr in ('search', 'findall', 'finditer')
+            and isinstance(e.func.value, ast.Attribute) and e.func.value.attr == CHARS_PATTERN
+            and isinstance(e.func.value.value, ast.Name) and e.func.value.value.id in ('self', 'cls', 'StaticRoute'))
+
+
+def _consults_pattern(p, g: Func, depth=0) -> bool:
+    """g (or a same-class / same-module helper it calls, two levels) mentions the disallowed-characters pattern."""
+    if any(isinstance(x, ast.Attribute) and x.attr == CHARS_PATTERN for x in walk_self(g.node)):
+        return True
+    if depth >= 2:
+        return False
+    for c in walk_self(g.node):
+        if isinstance(c, ast.Call):
+            h = _own_helper(p, g, c)
+            if h is not None and h is not g and _consults_pattern(p, h, depth + 1):
+                return True
+    return False
+
+
+def _own_helper(p, f: Func, call: ast.Call) -> Optional[Func]:
+    """The callee of `call` when it is a plain (synchronous, non-generator) method of f's own class reached through
+    self / cls, or a module-level function of f's module."""
+    fn = call.func
+    if not (isinstance(fn, ast.Name) or (isinstance(fn, ast.Attribute) and isinstance(fn.value, ast.Name) and fn.value.id in ('self', 'cls'))):
+        return None
+    g = p.callee(f, call)
+    if not isinstance(g, Func) or g.is_async or g.module is not f.module or g.parent is not None:
+        return None
+    if isinstance(fn, ast.Attribute) and (g.cls is None or f.cls is None or p.is_subclass(f.cls.qual, g.cls.qual) is not True):
+        return None
+    if any(isinstance(x, (ast.Yield, ast.YieldFrom)) for x in walk_self(g.node)):
+        return None
+    return g
+
+
+def _pattern_gates(p, f: Func, cfg, is_src, src_text: str, depth=0):
+    """(gate edges, number of pattern searches read): the CFG edges of f behind which the disallowed-characters pattern
+    has found nothing in a text derived from the source (`is_src(node)`: the node IS the source -- `req.path` in the
+    responder, a parameter handed such a text in a helper):
+      * the branch edges on which `<pattern>.search(x)` is false, x derived from the source (anything else: unknown idiom);
+      * the normal out-edges of a statement that calls a helper of the same class / module with an argument derived from
+        the source, when EVERY normal return of that helper lies behind a gate edge of its own (k2-c16-2: the
+        sanitisation block moved unmodified into StaticRoute._resolve_path, which hands back the file path).  A helper
+        that returns normally around its own test contributes no gate: the way through it is then a way around the test."""
+    from .c15_helpers import reaching
+    rdefs = reaching(p, f)
+
+    def derived(a, nid):
+        if a is None:
+            return False
+        if isinstance(a, ast.Name):
+            ds = rdefs.at(nid, a.id) if nid is not None else []
+            return bool(ds) and all((d.kind == 'param' and is_src(a))
+                                    or (d.kind == 'assign' and d.value is not None and any(is_src(x) for x in walk_self(d.value))) for d in ds)
+        return any(is_src(x) for x in walk_self(a))
+
+    gates = [(n.id, y, l) for n in cfg.live_nodes() if n.kind == 'test' for (y, l) in cfg.succ[n.id]
+             if l in ('T', 'F') and implied(n.ast, l == 'T', _is_pattern_search) is False]
+    uses = [x for n in cfg.live_nodes() for x in n.walk() if _is_pattern_search(x)]
+    for u in uses:
+        a = u.args[0] if len(u.args) == 1 and not u.keywords else None
+        if not derived(a, rdefs.cfg_node(u)):
+            raise UnknownIdiom('%s: %s is not applied to a local computed from %s' % (f.qual, short(u), src_text))
+    n_uses = len(uses)
+    if depth >= 2:
+        return gates, n_uses
+    for n in cfg.live_nodes():
+        for c in n.calls():
+            g = _own_helper(p, f, c)
+            if g is None or g is f or not _consults_pattern(p, g):
+                continue
+            if any(isinstance(a, ast.Starred) for a in c.args) or any(k.arg is None for k in c.keywords) or g.node.args.vararg or g.node.args.kwarg:
+                raise UnknownIdiom('%s: argument passing of %s (a helper that consults %s) not understood' % (f.qual, short(c), CHARS_PATTERN))
+            names = [x for x in g.params() if x not in ('self', 'cls')] if g.cls is not None else list(g.params())
+            bound = dict(zip(names, c.args))
+            bound.update({k.arg: k.value for k in c.keywords})
+            src_params = {nm for nm, a in bound.items() if derived(a, n.id)}
+            if not src_params:
+                raise UnknownIdiom('%s: %s consults %s but is not handed a text computed from %s' % (f.qual, short(c), CHARS_PATTERN, src_text))
+            gcfg = cfg_of(g, p)
+            sub, k = _pattern_gates(p, g, gcfg, lambda x: isinstance(x, ast.Name) and x.id in src_params, 'its parameter ' + '/'.join(sorted(src_params)), depth + 1)
+            n_uses += k
+            if k and flow.find_path(gcfg, [gcfg.entry], [gcfg.exit], avoid_edges=sub) is None:
+                gates += [(n.id, y, l) for (y, l) in cfg.succ[n.id] if l != 'exc']
+    return gates, n_uses
+
+
 def r11_undecodable_path_replaced(run):
     """The static route decides on text: its sanitisation sees `req.path`, not the
     bytes the client sent.  Two halves of one dependency:
@@ -1185,33 +1273,13 @@ def r11_undecodable_path_replaced(run):
               MOD + '.StaticRoute', '%s = %s' % (CHARS_PATTERN, short(val, 100)), where='%s:%s' % (c.module.relpath, val.lineno),
               runtime_witness='a request path with bytes that are not UTF-8 passes the sanitisation as "caf\ufffd.txt" and is looked up on disk')
 
-    def is_search(e):
-        return (isinstance(e, ast.Call) and isinstance(e.func, ast.Attribute) and e.func.attr in ('search', 'findall', 'finditer')
-                and isinstance(e.func.value, ast.Attribute) and e.func.value.attr == CHARS_PATTERN
-                and isinstance(e.func.value.value, ast.Name) and e.func.value.value.id in ('self', 'cls', 'StaticRoute'))
-
-    clean = [(n.id, y, l) for n in cfg.live_nodes() if n.kind == 'test' for (y, l) in cfg.succ[n.id]
-             if l in ('T', 'F') and implied(n.ast, l == 'T', is_search) is False]
-    uses = [x for n in cfg.live_nodes() for x in n.walk() if is_search(x)]
-    if not uses:
+    params = f.params()
+    req = params[1]
+    clean, n_uses = _pattern_gates(p, f, cfg, lambda x: dotted(x) == req + '.path', req + '.path')
+    if not n_uses:
         if any(isinstance(x, ast.Attribute) and x.attr == CHARS_PATTERN for x in walk_self(f.node)):
             raise UnknownIdiom('%s: %s is used otherwise than by .search(<remainder>) in a test' % (CALL, CHARS_PATTERN))
         raise AnchorError('%s does not consult %s' % (CALL, CHARS_PATTERN))
-    params = f.params()
-    req = params[1]
-    from .c15_helpers import reaching
-    rdefs = reaching(p, f)
-    for u in uses:
-        a = u.args[0] if len(u.args) == 1 and not u.keywords else None
-        nid = rdefs.cfg_node(u)
-        derived = False
-        if isinstance(a, ast.Name) and nid is not None:
-            ds = rdefs.at(nid, a.id)
-            derived = bool(ds) and all(d.kind == 'assign' and any(dotted(x) == req + '.path' for x in walk_self(d.value)) for d in ds)
-        elif a is not None:
-            derived = any(dotted(x) == req + '.path' for x in walk_self(a))
-        if not derived:
-            raise UnknownIdiom('%s: %s is not applied to a local computed from %s.path' % (CALL, short(u), req))
     sinks = [n.id for n in cfg.live_nodes() for cl in n.calls()
              if isinstance(p.callee(f, cl), Func) and p.callee(f, cl).qual == OPEN and not (cl.args and is_self_attr(cl.args[0], FALLBACK))]
     if not sinks:
